@@ -512,3 +512,75 @@ Fixpoint inner_ok (d : nat) (others : list nat) (it : item) : bool :=
    F30 (the first use is a reader inside a loop: first_in_loop) *)
 Definition safe_nested (d : nat) (others : list nat) (post : list item) : bool :=
   forallb (inner_ok d others) post && negb (existsb (loop_out d) post) && negb (first_in_loop d post).
+
+(* ---- decidable program well-formedness for the program-level theorems ------------------------------ *)
+(* the item (at any depth) does not mention the value d *)
+Fixpoint nm (d : nat) (it : item) : bool :=
+  match it with
+  | IOp _ uses => negb (uses_val d uses)
+  | ICast a b _ _ => negb (a =? d)%nat && negb (b =? d)%nat
+  | IAlloc v => negb (v =? d)%nat
+  | ICopy a b => negb (a =? d)%nat && negb (b =? d)%nat
+  | ILoop _ body => (fix go (l : list item) : bool :=
+                       match l with [] => true | x :: r => nm d x && go r end) body
+  end.
+
+(* b is not defined by a cast of q; the (first) cast defining a has source b *)
+Definition is_root (q : list item) (b : nat) : bool :=
+  match find_cast b q with None => true | Some _ => false end.
+Definition src_is (q : list item) (a b : nat) : bool :=
+  match find_cast a q with Some (b', _) => (b' =? b)%nat | None => false end.
+
+(* every cast (at any depth) casts a root and is the cast q records for its result: no chains, one
+   definition per name *)
+Fixpoint iwf (q : list item) (it : item) : bool :=
+  match it with
+  | ICast a b _ _ => is_root q b && src_is q a b
+  | ILoop _ body => (fix go (l : list item) : bool :=
+                       match l with [] => true | x :: r => iwf q x && go r end) body
+  | _ => true
+  end.
+
+(* the source and the other casts of the same source *)
+Definition others_of (q : list item) (d src : nat) : list nat :=
+  src :: filter (fun v => negb (v =? d)%nat && src_is q v src) (casts q).
+
+(* positions of the cast d (source src) for which the lift theorem applies: followed by a Safe block,
+   possibly inside loops; everything else does not mention d; all items well-formed.
+   The argument is a loop item whose body is inspected (the program is wrapped in a dummy loop). *)
+Fixpoint lokb (q : list item) (d src : nat) (others : list nat) (it : item) : bool :=
+  match it with
+  | ILoop _ body =>
+      (fix go (l : list item) : bool :=
+         match l with
+         | [] => true
+         | x :: r =>
+             match x with
+             | ICast d' s td ts =>
+                 if (d' =? d)%nat
+                 then (s =? src)%nat && is_root q src && src_is q d src && used d r && negb (ts =? td)%nat
+                      && safe_nested d others r && forallb (iwf q) r
+                 else nm d x && iwf q x && go r
+             | ILoop _ _ =>
+                 if nm d x then iwf q x && go r
+                 else lokb q d src others x && forallb (fun y => nm d y && iwf q y) r
+             | _ => nm d x && iwf q x && go r
+             end
+         end) body
+  | _ => false
+  end.
+
+(* one step of the walker on q for the cast c is inside the theorem's domain *)
+Definition step_okb (q : list item) (c : nat) : bool :=
+  match find_cast c q with
+  | Some (src, _) => is_root q src && lokb q c src (others_of q c src) (ILoop 0 q)
+  | None => false
+  end.
+
+(* all steps of realize_all *)
+Fixpoint steps_okb (cs : list nat) (q : list item) : bool :=
+  match cs with
+  | [] => true
+  | c :: cs' => step_okb q c && steps_okb cs' (rz_list q c q)
+  end.
+Definition all_steps_okb (p : list item) : bool := steps_okb (rev (casts p)) p.
